@@ -60,11 +60,32 @@ def run(ctx):
                 C.add_violation(ctx, sg, msg[:400], "# C18: %s\n# replay: put the history below into a file and run: harness variants --ops <file> --scratch <dir>\n%s\n" % (msg[:1500], "\n".join(lines)))
             if tag == "hist":
                 ctx.coverage["samples"] = [sample[:10]]
+        # versions 3 and 4 at a size where their tables differ most: the 18 MB history (V3: 275 FAT sectors and two
+        # DIFAT sectors, V4: 5 FAT sectors) — same results against the abstract model, the bytes of each reopen in
+        # both modes to the live state, and the two logical dumps (walk with metadata + every stream's bytes) agree
+        hdir = ctx.path("huge")
+        os.makedirs(hdir, exist_ok=True)
+        dumps = {}
+        for v in (3, 4):
+            rc, out = C.harness(["phys", "--huge", hdir, "--ops", ctx.path("huge%d.ops" % v), "--impl", ctx.path("huge%d.impl" % v)] + (["--v4"] if v == 4 else []))
+            st3, _, orc = C.parse_stats(out)
+            dumps[v] = st3.get("dump_hash")
+            total += 8
+            for msg in orc[:2]:
+                C.add_violation(ctx, "version:huge-v%d" % v, ("version %d: " % v) + msg[:380],
+                                "# C18: the 18 MB history in format version %d: %s\n# replay: harness phys --huge <dir> --ops o --impl i%s\n%s\n" % (v, msg[:1500], " --v4" if v == 4 else "", open(ctx.path("huge%d.ops" % v)).read() if os.path.exists(ctx.path("huge%d.ops" % v)) else ""))
+            try:
+                os.remove(os.path.join(hdir, "huge_v%d.cfb" % v))
+            except OSError:
+                pass
+        if dumps.get(3) != dumps.get(4):
+            C.add_violation(ctx, "version:huge-dump-differs", "the 18 MB history leaves different logical content in versions 3 and 4 (dump hashes %s / %s)" % (dumps.get(3), dumps.get(4)),
+                            "# C18: harness phys --huge <dir> --ops o --impl i   and the same with --v4: STAT dump_hash differs\n")
     finally:
         R.cleanup(ctx)
     ctx.coverage.update({
         "evaluations": total,
         "distinct_nontrivial": total,
-        "rule": "each generated history (C01 generator, and multi-handle histories) is executed on the in-memory backend (compared with the Lean model at levels O+D) and then re-executed: a second time in memory, on std::fs::File in a scratch directory, on backends delivering 1-byte transfers, random short transfers, and Interrupted-then-success for reads and writes — results, directory tables and the final file must be byte-identical — and with max_buffer_size 0/1025/1500/4096/65536 and in the other format version — results must be identical. Storage times are pinned. evaluations = calls of the baseline + variant runs",
+        "rule": "each generated history (C01 generator, and multi-handle histories) is executed on the in-memory backend (compared with the Lean model at levels O+D) and then re-executed: a second time in memory, on std::fs::File in a scratch directory, on backends delivering 1-byte transfers, random short transfers, and Interrupted-then-success for reads and writes — results, directory tables and the final file must be byte-identical — and with max_buffer_size 0/1025/1500/4096/65536 and in the other format version — results must be identical. Storage times are pinned. Plus the 18 MB history in both versions (results against the abstract model, reopen of the bytes in both modes, equal logical dumps). evaluations = calls of the baseline + variant runs",
     })
     return C.finish(ctx)
